@@ -383,7 +383,13 @@ def written_annotations(fw):
                'delay_annotation_dict': {'type': Hole('DT'), 'reactants': [Hole('R1'), Hole('R1'), Hole('R2')], 'products': [Hole('P1')],
                                          'parameters': {'delay': val('Dd', 3), 'sigma': val('Ds', 0.5)}}}
         ex = StrExec(env, ('propensity_annotation_string', 'delay_annotation_string'))
-        ex.run(blocks)
+        todo = []
+        for b_ in blocks:
+            unknown = [n_.id for n_ in ast.walk(b_.test) if isinstance(n_, ast.Name) and n_.id not in env and n_.id not in ('None', 'True', 'False')]
+            # a block guarded by a flag computed elsewhere in add_reaction: what it writes when it runs is what matters here (whether it
+            # runs for each propensity type is R12.1 annotation-present)
+            todo += list(b_.body) if unknown else [b_]
+        ex.run(todo)
         if ex.aborted:
             raise AnalysisError('the annotation code %s' % ex.aborted)
         return ex.env.get('propensity_annotation_string'), ex.env.get('delay_annotation_string')
@@ -409,6 +415,31 @@ def written_annotations(fw):
     except AnalysisError as e:
         num_problem = 'a numeric value is concatenated without str(): %s' % e
     return pairs(sp_, 'PropensityType'), pairs(sd_, 'DelayType'), num_problem
+
+
+def check_annotation_present(ctx, fw):
+    """The reader rebuilds a built-in propensity from its annotation; without one it reads the kinetic law as a general rate (another
+    class, other volume / stochastic forms).  add_reaction is evaluated (c14.build) for every propensity type, both export modes and -
+    for mass action - every reactant multiset of order <= 4: the annotation handed to the reaction names the type, for every type but
+    'general'."""
+    from . import c01
+    cases = [('massaction', cs) for cs in c01.multisets()] + [(h_, (1,)) for h_ in c14.HILLS] + [('general', (1,))]
+    bad = []
+    n = 0
+    for ptype, counts in cases:
+        for stochastic in (False, True):
+            _, ex = c14.build(fw, ptype, stochastic, counts)
+            n += 1
+            a = ex.annotation
+            if not isinstance(a, str):
+                raise AnalysisError('add_reaction: annotation not determined for %s %s' % (ptype, counts))
+            has = '<PropensityType>' in a and ('type=%s ' % ptype in a or 'type=%s<' % ptype in a)
+            if has != (ptype != 'general'):
+                bad.append('%s%s, %s export: annotation %r' % (ptype, '' if ptype != 'massaction' else ' with multiplicities %s' % (counts,),
+                                                            'stochastic' if stochastic else 'deterministic', a.replace('\n', ' ')[:90]))
+    ctx.ob('R12.1-propensity-keys', 'annotation-present', not bad, ctx.loc('sbmlutil', fw),
+           "every built-in propensity type is written with its <PropensityType> annotation in both export modes, 'general' without one "
+           '(%d type x multiset x mode cases evaluated)' % n, '; '.join(bad[:2]))
 
 
 def check_str_wrapped(ctx, fw, far):
@@ -730,6 +761,7 @@ def check(ctx):
     c14.check_printer_language(ctx, 'R12.5-formula-language', 'import_sbml_reactions', 'reader-printer/kinetic-law')
     c14.check_printer_language(ctx, 'R12.5-formula-language', 'import_sbml_rules', 'reader-printer/rule')
     fw, far = check_keys(ctx)
+    check_annotation_present(ctx, fw)
     check_str_wrapped(ctx, fw, far)
     check_exhaustive(ctx, fw, far)
     check_forwarding(ctx)
